@@ -101,7 +101,7 @@ def run(ck, tier):
     thorough = tier == "thorough"
     binary = vf.build_harness("wire")
     r = vf.tlc("MCWireCodec.tla", "GenWireCodec_thorough.cfg" if thorough else "GenWireCodec.cfg", cwd=SPECDIR,
-               workers=4, timeout=2400, heap="6g")
+               workers=1, timeout=2400)     # one state, one evaluation: more workers only add JVM overhead
     if not r.ok:
         raise vf.ToolError("WireCodec generator failed its own invariant (specification bug): %s" % (r.error or "")[:1500])
     ck.add_tlc("components", r)
